@@ -8,6 +8,7 @@ package fzf
 import (
 	"fmt"
 	"os"
+	"regexp"
 	"strconv"
 	"strings"
 
@@ -16,7 +17,7 @@ import (
 )
 
 // shWords splits a command line the way a POSIX shell does for the subset fzf
-// produces: blanks separate words, single quotes protect, '\'' is a quote.
+// produces: blanks separate words, single quotes protect, '\” is a quote.
 func shWords(s string) []string {
 	var out []string
 	var cur strings.Builder
@@ -90,9 +91,9 @@ func genC20Plan(r *zsim.Rng) *sysPlan {
 		ps := procSpec{}
 		switch r.Intn(8) {
 		case 0: // instant
-			ps.Text = "one\ntwo\n"
+			ps.Text = "one\ntwo\nthree\n"
 		case 1: // slow start
-			ps.Text = "late\n"
+			ps.Text = "late1\nlate2\nlate3\n"
 			ps.DelaysMs = []int{[]int{120, 480, 520, 900, 2500}[r.Intn(5)]}
 		case 2: // incremental over seconds
 			ps.Chunks = []int{1, 1, 1}
@@ -152,6 +153,8 @@ func genC20Plan(r *zsim.Rng) *sysPlan {
 	p.Events = append(p.Events, end)
 	return p
 }
+
+var scrollInfoRe = regexp.MustCompile(`\s+\d+/\d+$`)
 
 func isPreviewProc(p *simos.Proc) bool {
 	return strings.HasPrefix(p.Command, "PV")
@@ -340,6 +343,47 @@ func c20Settle(r *sysRun, busy bool) {
 			// start failure: the pane shows the error text
 		} else if strings.Join(got, "") != strings.Join(want, "") {
 			c.violate("c20.pane", "preview pane holds %q, the command that ran last (%q) has emitted %q", clip([]byte(strings.Join(got, ""))), last.Command, clip([]byte(strings.Join(want, ""))))
+		}
+	}
+	// … and what the pane holds is what is on the screen (simple output: short ASCII lines that fit, no scrolling)
+	if !busy && !last.Alive && last.Consumed == last.Emitted.Len() && t.pwindow != nil && len(c.viol) == 0 {
+		pw := t.pwindow
+		top, left, width, height := pw.Top(), pw.Left(), pw.Width(), pw.Height()
+		simple := len(want) > 0 && len(want) <= height && t.previewer.offset == 0 && !strings.Contains(last.Emitted.String(), "\x1b")
+		for _, l := range want {
+			tl := strings.TrimRight(l, "\n")
+			if len(tl) >= width-1 || strings.ContainsAny(tl, "\t\r") {
+				simple = false
+			}
+			for _, ch := range tl {
+				if ch > 126 || ch < 32 {
+					simple = false
+				}
+			}
+		}
+		if simple && last.ExitCode != 127 {
+			scr := r.tty.Screen()
+			for i, l := range want {
+				row := top + i
+				if row < 0 || row >= len(scr) {
+					break
+				}
+				rs := []rune(scr[row])
+				for len(rs) < left+width {
+					rs = append(rs, ' ')
+				}
+				got := strings.TrimRight(string(rs[left:left+width]), " ")
+				if i == 0 {
+					// the first row may carry the scroll indicator "offset/total" at its right end
+					got = strings.TrimRight(scrollInfoRe.ReplaceAllString(got, ""), " ")
+				}
+				wantLine := strings.TrimRight(strings.TrimRight(l, "\n"), " ")
+				if !strings.HasPrefix(got, wantLine) || strings.TrimRight(strings.TrimPrefix(got, wantLine), " │|") != "" {
+					c.violate("c20.screen", "preview window row %d shows %q, the command that ran last (%q) printed %q as line %d\n%s", i, got, last.Command, wantLine, i, strings.Join(scr, "\n"))
+					break
+				}
+			}
+			c.count("probe.preview_screen_checked", 1)
 		}
 	}
 	if alive > 0 {
